@@ -17,13 +17,13 @@ from harness.core import q, z, zlit, coq_list, coq_bool, coq_opt
 PID = "C18"
 GEN_GROUPS = ["Analysis", "Battery"]
 TARGETS = ["coq/Props/C18.vo", "coq/Model/AnalysisQc.vo"]
-CASES = {"quick": 160, "thorough": 2000}
+CASES = {"quick": 210, "thorough": 2400}
 SHARD = 10
 CORR_HEADER = ("From Coq Require Import ZArith QArith List.\n"
                "From ACN Require Import Base.Num Model.Ledger Model.LedgerQ Model.Analysis Model.AnalysisQ Model.AnalysisQc.\n"
                "Import ListNotations.\nOpen Scope Q_scope.\n")
 CHECK_FN = "check_c18_qc"      # the canonical-rational instance: the model of the axiom-free theorems
-RULE = ("one case = one completed Simulator.run() (C02 generator: 1-6 stations, voltages 120/208/240/277, mixed battery "
+RULE = ("one simulation of the real Simulator yields up to three cases: every analysis function is called from inside the scheduling algorithm at every invocation while the run is in progress (two of these mid-run snapshots are kept) and again on the completed simulation, each compared with the model for the state at that moment (C02 generator: 1-6 stations, voltages 120/208/240/277, mixed battery "
         "classes, period 1/5/15/0.5/7.5 minutes and fractional-second / float-inexact periods 4.1, 0.1, 1/3, 2.3, 12.5/60, 0.025, 8.2, ...) on a network with 1-5 constraints built from Current objects (three-phase groups on "
         "phases 30/-90/150 and arbitrary angles, signed / fractional / scaled coefficients), then every analysis function: "
         "aggregate_current/power, constraint_currents with both flag values and None / random subsets / permutations / "
@@ -104,6 +104,7 @@ def gen_input(rng, tier):
         nema.append(ids)
     inp["nema_queries"] = nema
     inp["thresholds"] = [0.1, 0.0, rng.choice([1e-3, 0.5, 2.0]), round(rng.uniform(0, 20), 3), -1.0]
+    inp["snap_pick"] = rng.random()
     return inp
 
 
@@ -189,7 +190,7 @@ def run_impl(inp):
         except Exception as e:  # noqa
             import traceback
             return dict(error="%s: %s" % (type(e).__name__, e), where=traceback.format_exc().splitlines()[-3:])
-    impl = c02.run_history(inp, extra=guarded)
+    impl = c02.run_history(inp, extra=guarded, midrun=guarded)
     return impl
 
 
@@ -237,14 +238,12 @@ def case_coq(inp, ex):
         q(ex["requested"]), q(ex["delivered"]), coq_opt(ex["proportion"], q), met, nema, minutes)
 
 
-def make_case(inp):
-    impl = run_impl(inp)
-    if not impl["ok"] or "extra" not in impl:
-        return None
-    ex = impl["extra"]
+def finish_case(inp, ex, snapshot):
+    """one recorded set of analysis results (mid-run snapshot k, or the completed simulation) -> one case"""
+    inp = dict(inp, snapshot=snapshot)
     if "error" in ex:
         return dict(input=inp, impl=dict(extra=ex, ok=True), coq=FAILING_CASE, ambiguous=False, kind="analysis-raised",
-                    sig=[inp["stations"], inp["sessions"], inp["script"], inp["constraints"]], nontrivial=True)
+                    sig=[inp["stations"], inp["sessions"], inp["script"], inp["constraints"], snapshot], nontrivial=True)
     amb = False
     # thresholds within 1e-9 of a remaining demand are float-ambiguous: drop them
     used_t, used_m = [], []
@@ -267,21 +266,44 @@ def make_case(inp):
             mean = sum(m[t] for m in mags) / len(mags)
             if 0 < mean < 1e-9:
                 amb = True
-    if impl.get("ambiguous"):
-        pass      # the battery-regime ambiguity of C02 does not matter here: the trajectory is an input
     return dict(input=inp, impl=dict(extra=ex, ok=True), coq=case_coq(inp, ex), ambiguous=amb,
-                kind="m=%d/n=%d" % (len(ex["cindex"]), len(ex["volts"])),
+                kind="m=%d/n=%d/%s" % (len(ex["cindex"]), len(ex["volts"]), "final" if snapshot == "final" else "mid-run"),
                 sig=[inp["stations"], inp["sessions"], inp["script"], inp["constraints"], inp["cc_queries"],
-                     inp["nema_queries"]],
-                nontrivial=ex["delivered"] != 0)
+                     inp["nema_queries"], snapshot],
+                nontrivial=ex["delivered"] != 0 or snapshot != "final")
+
+
+def make_cases(inp):
+    """one simulation -> cases: every analysis function is called from inside the scheduling algorithm at EVERY
+    invocation while the run is in progress and again on the completed simulation; the completed one and up to two of
+    the mid-run snapshots (the last one, and one picked by inp["snap_pick"]) are compared with the model for the state
+    at that moment"""
+    impl = run_impl(inp)
+    if not impl["ok"] or "extra" not in impl:
+        return []
+    mids = impl.get("midrun", [])
+    keep = []
+    if mids:
+        keep = sorted({len(mids) - 1, int(inp.get("snap_pick", 0.5) * len(mids)) % len(mids)})
+        if any("error" in m for m in mids):
+            keep = [k for k, m in enumerate(mids) if "error" in m][:1]
+    out = [finish_case(inp, mids[k], k) for k in keep]
+    out.append(finish_case(inp, impl["extra"], "final"))
+    return out
+
+
+def make_case(inp):
+    cs = make_cases(inp)
+    return cs[-1] if cs else None
 
 
 def gen_cases(rng, n, tier):
     cases = []
     while len(cases) < n:
-        inputs = [gen_input(rng, tier) for _ in range(n - len(cases))]
-        cases.extend(c for c in c02.pmap(make_case, inputs) if c is not None)
-    return cases
+        inputs = [gen_input(rng, tier) for _ in range(max(4, (n - len(cases)) // 2))]
+        for cs in c02.pmap(make_cases, inputs):
+            cases.extend(cs)
+    return cases[:n]
 
 
 # ------------------------------------------------------------------------------------------------
@@ -380,24 +402,25 @@ def search(rng, budget_s, broken):
     for p in PERIODS:
         inp = gen_input(rng, "quick")
         inp["period"] = p
-        c = make_case(inp)
-        if c is not None:
+        for c in make_cases(inp):
             r = monitor(c)
             if r:
                 return dict(case=c["input"], impl=c["impl"], why=r)
     while time.time() - t0 < budget_s:
         for _ in range(30):
-            c = make_case(gen_input(rng, "quick"))
-            if c is None:
-                continue
-            r = monitor(c)
-            if r:
-                return dict(case=c["input"], impl=c["impl"], why=r)
+            for c in make_cases(gen_input(rng, "quick")):
+                r = monitor(c)
+                if r:
+                    return dict(case=c["input"], impl=c["impl"], why=r)
     return None
 
 
 def replay(w):
-    c = make_case(w["case"])
-    if c is None:
+    cs = make_cases(w["case"])
+    if not cs:
         return "the simulation itself no longer completes"
-    return monitor(c)
+    for c in cs:
+        r = monitor(c)
+        if r:
+            return r
+    return None
